@@ -42,6 +42,17 @@ static double g_time_before = 0;
 static std::vector<std::vector<std::string>> g_expected_rows;   // statistics rows the run should have printed
 static std::vector<long> g_expected_row_iter;
 
+// the last refinement pass of every cell (hook H6): did it end normally with the counter below the number of edges?
+#include <mutex>
+static std::map<const cell*, bool> g_pass_complete;
+static std::mutex g_pass_mu;
+static double g_lmin = 0;
+static void on_mesh_op(int phase, const char* op, cell* c, long, long, long, long, double v1, double v2) {
+    if (phase == 0 || std::strcmp(op, "pass")) return;
+    std::lock_guard<std::mutex> lk(g_pass_mu);
+    g_pass_complete[c] = (phase == 1 && v1 < v2);
+}
+
 static double indep_volume(cell& c) {
     double v = 0;
     auto& N = cell_tester::nodes(c);
@@ -99,6 +110,17 @@ static void cells_json(vj::out& o, int phase) {
             if (ct && f.get_local_face_type_id() >= ct->face_types_.size()) bad_ftype++;
         }
         o.key("bad_owner").i(bad_owner).key("bad_ftype").i(bad_ftype);
+        {   // C18 ("edge length governs the run"): right after the refinement phase no edge of a cell whose pass ended normally is
+            // longer than three minimum edge lengths (RefinePass.Complete)
+            bool edges_ok = true, complete = false;
+            if (phase == 4) {
+                { std::lock_guard<std::mutex> lk(g_pass_mu); auto it = g_pass_complete.find(&c); complete = it != g_pass_complete.end() && it->second; }
+                auto& N = cell_tester::nodes(c);
+                const double lim = 9. * g_lmin * g_lmin * (1 + 1e-9);
+                for (const edge& e : c.get_edge_set()) if ((N[e.n1()].pos() - N[e.n2()].pos()).squared_norm() > lim) edges_ok = false;
+            }
+            o.key("pass_complete").b(complete).key("edges_ok").b(edges_ok);
+        }
         o.end_obj();
     }
     o.end_arr();
@@ -227,6 +249,7 @@ int main(int argc, char** argv) {
     gp.sampling_period_ = S["S"].d();
     gp.time_step_ = S["dt"].d();
     gp.min_edge_len_ = S["lmin"].d();
+    g_lmin = gp.min_edge_len_;
     gp.contact_cutoff_adhesion_ = S["cut_adh"].d();
     gp.contact_cutoff_repulsion_ = S["cut_rep"].d();
     g_dt = gp.time_step_;
@@ -307,6 +330,7 @@ int main(int argc, char** argv) {
         traced_solver solv(gp, cells, (int)S["threads"].i(), in_string, false);
         g_solver = &solv;
         verif::hooks().event = on_event;
+        verif::hooks().mesh_op = on_mesh_op;
         {
             vj::out o; o.obj().key("e").str("init").key("iter").i(0).key("nextId").i(solv.next_id()).key("fileNo").i(solv.file_number());
             o.key("time").str(dstr(solv.time()));
@@ -317,6 +341,7 @@ int main(int argc, char** argv) {
         catch (abort_run&) { outcome = "iteration_limit"; }
         catch (std::exception& e) { outcome = "exception"; what = e.what(); }
         verif::hooks().event = nullptr;
+        verif::hooks().mesh_op = nullptr;
 
         // ---- what the run left behind
         vj::out o;
